@@ -51,6 +51,17 @@ def run(chk, replay=None):
         p = Prog(text, [("EXPECT", ("U", 3))], "aggregate/%d" % i, params=[("L", lt, lv), ("A", at, av), ("T", tt, tv)])
         p.observe = 3
         progs.append(p)
+    # one parameter name at two sites: accepted (one entry) when both sites have one type, rejected when the types differ
+    for a, b in (("u16", "(u8, u8)"), ("u1", "bool"), ("u8", "u32"), ("[u8; 2]", "u16"), ("Option<u8>", "Either<(), u8>")):
+        for ta, tb, ok in ((a, b, False), (b, a, False), (a, a, True)):
+            for text in ("fn main() { let x: %s = param::X; let y: %s = param::X; }" % (ta, tb), "fn f() -> %s { param::X }\nfn main() { let y: %s = param::X; let z: %s = f(); }" % (ta, tb, ta)):
+                x = impl("core", ["(params %s)" % quote(text)], shards=1)[0]
+                chk.case("(params %s)" % quote(text), sample={"program": text[:120], "outcome": x[:60]})
+                chk.count("param-two-sites.%s" % x.split(" ")[0].strip("()"))
+                if x.startswith("(ok") != ok or (ok and x.count("(X ") != 1):
+                    chk.violation({"class": "parameters", "what": "one name at types %s / %s: %s" % (ta, tb, x[:100])},
+                                  {"cmd": "core", "line": "(params %s)" % quote(text), "program": text, "implementation": x, "expected": "accepted with one entry" if ok else "rejected",
+                                   "broken": "a parameter name used at two sites must have one type (and is reported once)"})
     # (a) parameters() reports exactly the param:: occurrences
     res = impl("core", ["(params %s)" % quote(g.text) for g in progs])
     ok_progs = []
@@ -86,6 +97,9 @@ def run(chk, replay=None):
                 if d != t:
                     cases.append((g, "different-type", [(m, (gen.gen_val(rng, d) if m == n else w)) for m, w in base]))
                     break
+            rg = progen.regroup(t, v)
+            if rg:
+                cases.append((g, "regrouped-tuple-type", [(m, (rg[1] if m == n else w)) for m, w in base]))
         # combinations: the rules hold jointly (a missing argument next to unrelated extra names, a retyped one next to extras, ...)
         for _ in range(3):
             m = list(base)
